@@ -508,7 +508,7 @@ func (e *CEnv) index(x *CExpr) (Val, error) {
 	case *types.Slice:
 		name, sort := c.elemHeap(u.Elem())
 		s := base.Term
-		return Val{T: u.Elem(), Term: sel(sel(c.heapGet(e.st, name, sort), slBase(c.smt, s)), elemIdx(slOff(c.smt, s), idx.Term))}, nil
+		return Val{T: u.Elem(), Term: sel(sel(c.heapGet(e.st, name, sort), slBase(c.smt, s)), elemIdx(slOff(c.smt, s), idx.Term, refElem(u.Elem())))}, nil
 	case *types.Map:
 		has, val := c.mapRead(e.st, base.T, base.Term, idx.Term)
 		t := val
@@ -889,6 +889,19 @@ func (e *CEnv) callExpr(x *CExpr) (Val, error) {
 		}
 		c.smt.declareFun("iface_payload", []string{"Int"}, "Int")
 		return Val{T: types.NewPointer(st), Term: app("iface_payload", c.termOf(iv))}, nil
+	case "at":
+		// at(s, k): the element at absolute position k of the backing array of slice s
+		// (s[i] == at(s, off(s)+i)); quantifying over absolute positions keeps arithmetic out of patterns
+		as, err := evalArgs()
+		if err != nil {
+			return Val{}, err
+		}
+		sl, ok := as[0].T.Underlying().(*types.Slice)
+		if !ok {
+			return Val{}, fmt.Errorf("at() needs a slice")
+		}
+		name, sort := c.elemHeap(sl.Elem())
+		return Val{T: sl.Elem(), Term: sel(sel(c.heapGet(e.st, name, sort), app("sl_base", as[0].Term)), as[1].Term)}, nil
 	case "objOf":
 		as, err := evalArgs()
 		if err != nil {
